@@ -15,14 +15,14 @@ T = ck.tier
 ex = ck.executor('graph_engine', unroll=24, default_maxlen=1, max_paths=100000)
 P = ex.prog
 F = P.field
-NN = 2 if T == 'quick' else 3
-ck.bounds = {'graph': f'{NN} nodes (ids symbolic, distinct), 0..2 edges between them (endpoints, direction flag symbolic), adjacency lists consistent with the edges',
+NN = 2        # S4-S7 and the symbolic-id half of S1-S3; thorough adds three-node graphs with concrete ids to S1-S3
+ck.bounds = {'graph': '2 nodes with symbolic distinct ids' + ('' if T == 'quick' else ' and 3 nodes with concrete distinct ids') + f', 0..2 edges between them (endpoints, direction flag symbolic), adjacency lists consistent with the edges',
              'operation': 'one create_edge / delete_edge / delete_node with symbolic arguments'}
 ck.assumptions = [
     'the store is its key/value contract (get/put/delete/exists on a finite map); TensorData is its field map',
     'store keys node:<id>, edge:<id>, node:<id>:out, node:<id>:in are modelled as (kind, id) pairs (ids < 2^60): two keys are equal exactly when kind and id are',
     'edge-id strings in adjacency lists: u64::to_string / str::parse::<u64> as an exact inverse pair',
-    'property indexes, constraints, statistics and the edge-type index are stubs (validate_edge_constraints succeeds)',
+    'property indexes, statistics and the edge-type index are stubs; no constraints are defined (validate_edge_constraints runs over an empty constraint table)',
     'NOT decided: concurrent operations (the read-modify-write window of the adjacency lists), traversal/neighbor queries, node/edge updates, batch operations',
 ]
 U64 = lambda v: z3.BitVecVal(v, 64)
@@ -208,7 +208,6 @@ ex.extra_models.update({
     'GraphEngine::has_any_unique_edge_constraint': lambda c: z3.BoolVal(False),
     'GraphEngine::ensure_edge_type_index': noop, 'GraphEngine::index_edge_properties': noop, 'GraphEngine::unindex_edge_properties': noop,
     'GraphEngine::unindex_node_properties': noop, 'GraphEngine::index_node_properties': noop,
-    'GraphEngine::validate_edge_constraints': lambda c: _ok(UNIT, 'Result<(), GraphError>'),
     'current_timestamp_millis': lambda c: Int(z3.BitVec(c.st.fresh_name('now'), 64), False),
     'graph_engine::current_timestamp_millis': lambda c: Int(z3.BitVec(c.st.fresh_name('now'), 64), False),
 })
@@ -351,14 +350,17 @@ def run(st, fname, args):
 
 
 def engine(st):
-    g = Struct('GraphEngine', {F('GraphEngine', 'store'): st.roots['store']}, lazy='GE')
+    g = Struct('GraphEngine', {F('GraphEngine', 'store'): st.roots['store'],
+                               F('GraphEngine', 'constraints'): Struct('RwLock', {'data': Cell(val=Map('std::string::String', 'Constraint', [], []))})}, lazy='GE')
     st.roots['ge'] = g
     return g
 
 
 EDGE_SETS = [[], [(0, 1)], [(0, 1), (1, 0)], [(0, 1), (0, 1)], [(0, 0)]]
-if NN >= 3:
-    EDGE_SETS += [[(0, 1), (1, 2)], [(0, 1), (2, 1)], [(0, 2), (2, 0)]]
+EDGE_SETS3 = EDGE_SETS + [[(0, 1), (1, 2)], [(0, 1), (2, 1)], [(0, 2), (2, 0)], [(0, 0), (0, 1)], [(1, 1), (0, 1)]]
+# (nodes, edge sets, concrete ids): symbolic ids on two nodes; thorough adds three nodes with concrete ids (with symbolic ids one
+# three-node query ran into the 60 s cap, and only equalities between ids matter)
+S123 = [(2, EDGE_SETS, False)] + ([(3, EDGE_SETS3, True)] if T != 'quick' else [])
 
 ck.declare('S1_create_edge_links_both_ends', 'create_edge(from, to, type, {}, directed) with symbolic arguments on every bounded graph',
            'Ok(id) => both endpoints exist, the edge record is stored with these endpoints, the graph is consistent again, every earlier edge is still there; Err => nothing changed')
@@ -367,11 +369,11 @@ ck.declare('S2_delete_edge_unlinks_both_ends', 'delete_edge(id) with a symbolic 
 ck.declare('S3_delete_node_removes_incident_edges', 'delete_node(id) with a symbolic id',
            'Ok => the node, its two lists and every edge touching it are gone, no list mentions such an edge, edges not touching it are untouched, the graph is consistent')
 created = deleted = ndeleted = 0
-for es in EDGE_SETS:
+for nn_, es, conc_ in [(n_, e_, c_) for (n_, sets_, c_) in S123 for e_ in sets_]:
     for dirs in itertools.product((True, False), repeat=len(es)):
         for opname in ('create_edge', 'delete_edge', 'delete_node'):
             st = ex.new_state()
-            G = Graph(st, NN, es)
+            G = Graph(st, nn_, es, concrete=conc_)
             G.add_lists(st, dirs)
             ge = engine(st)
             n0, e0, l0 = snapshot(st)
@@ -435,6 +437,46 @@ for es in EDGE_SETS:
                     ck.require(ex, ob, r.pc, None, z3.And(cs), wit, lambda m, w: 'delete-node')
 if created == 0 or deleted == 0 or ndeleted == 0:
     ck.inconclusive.append(f'vacuous: create_edge succeeded on {created} paths, delete_edge on {deleted}, delete_node on {ndeleted}')
+
+# ------------------------------------------------------------------ S7: user properties cannot disturb the structure
+ck.declare('S7_properties_do_not_touch_structure', 'create_edge(from, to, type, {name: Int(v)}, directed) with a symbolic property name and value, on the two-node graph with 0..1 edges',
+           'Ok(id) => the stored edge has the endpoints and direction that were passed and the graph is consistent - whatever the property is called; (a refusal of the property name is fine)')
+prop_runs = 0
+for es in ([], [(0, 1)]):
+    for dirs in itertools.product((True, False), repeat=len(es)):
+        st = ex.new_state()
+        G = Graph(st, NN, es, concrete=True)
+        G.add_lists(st, dirs)
+        ge = engine(st)
+        ge.fields[F('GraphEngine', 'edge_counter')] = Struct('AtomicU64', {'data': Cell(val=Int(U64(200), False))})
+        a1, a2, pv = z3.BitVec('arg1', 64), z3.BitVec('arg2', 64), z3.BitVec('prop_value', 64)
+        st.assume(z3.And(z3.ULT(a1, U64(1 << 59)), z3.ULT(a2, U64(1 << 59)), z3.ULT(pv, U64(1 << 59))))
+        pname = Str(z3.BitVec('prop_name', 64))
+        pval = Enum('PropertyValue', P.variant_index('PropertyValue', 'Int'), {('Int', 0): Int(pv, True)}, variant='Int')
+        args = [ref(ge), Int(a1, False), Int(a2, False), Str(z3.BitVec('new_type', 64)), Map('std::string::String', 'PropertyValue', [pname], [pval]), z3.Bool('new_directed')]
+        res = run(st, 'GraphEngine::create_edge', args)
+        ck.note_path_problem(res, f'create_edge with a property, edges={es}')
+        for r in res:
+            if r.status != 'return' or r.retval.variant != 'Ok':
+                continue
+            prop_runs += 1
+            nid_ = r.retval.fields[('Ok', 0)].v
+            try:
+                n1, e1, l1 = snapshot(r.st)
+                cs = z3.And(consistent(n1, e1, l1), z3.Or([z3.And(x == nid_, y == a1, z_ == a2, d2 == z3.Bool('new_directed')) for (x, y, z_, d2) in e1] + [z3.BoolVal(False)]))
+            except (AttributeError, KeyError, TypeError):
+                cs = z3.BoolVal(False)          # a system field no longer holds a value of its type
+            # which system field (if any) the name collides with, read off the path
+            names = {'_from': None, '_to': None, '_directed': None, '_id': None, '_type': None, '_edge_type': None, '_created_at': None}
+
+            def wit(m, r=r, es=es, dirs=dirs, G=G):
+                pid = mval(m, pname.id)
+                hit = [t for t in names if (Str(text=t).id.as_long() == pid)]
+                return {'graph_call': 'create_edge_with_property', 'nodes': [mval(m, x) for x in G.nid], 'edges': [[a, b, mval(m, G.eid[j]), dirs[j]] for j, (a, b) in enumerate(es)],
+                        'arg1': mval(m, a1), 'arg2': mval(m, a2), 'new_directed': bool(mval(m, z3.Bool('new_directed'))), 'property': hit[0] if hit else 'plain', 'value': mval(m, pv)}
+            ck.require(ex, 'S7_properties_do_not_touch_structure', r.pc, None, cs, wit, lambda m, w: 'property-overwrites-system-field')
+if prop_runs == 0:
+    ck.inconclusive.append('S7 vacuous: create_edge with a property never succeeded')
 
 # ------------------------------------------------------------------ S6: the batch path (its own copy of the edge-creation code)
 ck.declare('S6_batch_create_edges_links_every_edge', 'batch_create_edges with 1..2 EdgeInput items (endpoints and direction flags symbolic) on every bounded graph with at most one edge',
